@@ -27,7 +27,7 @@ OUTSIDE = ["rounding at the 1e-6 guards and window edges", "compiled == interpre
            "Savitzky-Golay on a symbolic grid (grid and centre frequencies are concrete there; spectrum symbolic)"]
 BOUNDS = {"quick": {"bins": 5, "rows": 2, "symbolic_centre_frequencies": 1, "sg_points": [5, 7]},
           "thorough": {"bins": "5-8", "rows": 3, "symbolic_centre_frequencies": 2, "sg_points": [5, 7, 9, 11]}}
-INSTANCE_TIMEOUT = {"quick": 230, "thorough": 1700}
+INSTANCE_TIMEOUT = {"quick": 230, "thorough": 700}
 MAX_VALIDATIONS = {"quick": 80, "thorough": 400}
 _L = None
 EPS = qval(1e-6)
@@ -51,8 +51,8 @@ def instances(tier):
         for nb in nbs:
             out.append({"name": f"kernel_{op}_nb{nb}", "func": "run_kernel", "kwargs": {"op": op, "nb": nb, "rows": 2 if tier == "quick" else 3}})
         out.append({"name": f"conseq_{op}", "func": "run_consequences", "kwargs": {"op": op, "nb": 4 if tier == "quick" else 5}})
-        if tier == "thorough":
-            out.append({"name": f"kernel2fc_{op}", "func": "run_kernel", "kwargs": {"op": op, "nb": 4, "rows": 2, "nfc": 2}})
+        # two symbolic centre frequencies: their order is not fixed (ascending, descending, equal are all explored)
+        out.append({"name": f"kernel2fc_{op}", "func": "run_kernel", "kwargs": {"op": op, "nb": 3 if tier == "quick" else 4, "rows": 1 if tier == "quick" else 2, "nfc": 2}})
     for m in ([5, 7] if tier == "quick" else [5, 7, 9, 11]):
         out.append({"name": f"savgol_m{m}", "func": "run_savgol", "kwargs": {"m": m}})
     return out
